@@ -144,7 +144,8 @@ def tlc_validate(ctx, module, records, env_extra, workers=None, timeout=3000):
         for r in records:
             f.write(json.dumps(r) + "\n")
     env = {"VERIF_TRACE": tr, "VERIF_LO": 1, "VERIF_HI": len(records), "VERIF_SEED": ctx.seed,
-           "VERIF_PROP": ctx.prop, "VERIF_HTCAP": 6 if ctx.quick() else 8, "VERIF_CLCAP": 10 if ctx.quick() else 12}
+           "VERIF_PROP": ctx.prop, "VERIF_HTCAP": 6 if ctx.quick() else 8, "VERIF_CLCAP": 10 if ctx.quick() else 12,
+           "VERIF_FULLHT": "0" if ctx.quick() else "1"}
     env.update(env_extra or {})
     vals, _ = run_tlc(ctx, module, module + ".cfg", env, workers=workers or min(NCPU, 12), timeout=timeout)
     return vals
